@@ -1,7 +1,7 @@
 import RaftProofs.ClusterCommitS
 
 /-!
-Cluster-level commit safety, part T: the extended standing hypotheses (`Hyp2`), the *term floor* of a
+Cluster-level commit safety, part T: the extended standing hypotheses (`Hyp2w`), the *term floor* of a
 node (a lower bound of both its in-memory and its stored term, never lost), and: whoever leads a term
 has that term in its storage (no quorum fits into one node, so a leader has been granted a vote by
 somebody else, whose grant answers a request that was sent with the term persisted).
@@ -15,13 +15,19 @@ open Node Raft Raft.CC RaftProps.C02
 * `shape` (**proof gap**: snapshots and log compaction are not covered): no node ever has a pending
   snapshot and every storage keeps its first index `c0 + 1`;
 * `initc`: in the initial state every commit index is `c0` (nothing beyond the common snapshot point is
-  committed yet);
-* `norir` (**proof gap**): no `MsgReadIndexResp` is ever in the transport. -/
-structure Hyp2 (cfg : JointConfig) (c0 : Nat) (h : List Sys) : Prop extends Hyp cfg h where
+  committed yet).
+
+(`Hyp2w` is `Hyp2` without the former proof gap `norir`, which the layers above no longer need.) -/
+structure Hyp2w (cfg : JointConfig) (c0 : Nat) (h : List Sys) : Prop extends Hyp cfg h where
   nolone : ∀ i Q, IsJointQuorum cfg Q → ∃ k ∈ Q, k ≠ i
   shape : ∀ s ∈ h, ∀ i st, s.node i = some st →
     st.raft.raftLog.unstable.snapshot = none ∧ st.raft.raftLog.store.firstIndex = c0 + 1
   initc : ∀ s : Sys, h[0]? = some s → ∀ i st, s.node i = some st → st.raft.raftLog.committed = c0
+
+/-- the hypotheses of the commit layer as first stated (`RaftProps/C01c.lean`): `Hyp2w` and
+* `norir` (a former **proof gap**, discharged in `RaftProps/C01d.lean`): no `MsgReadIndexResp` is ever
+  in the transport. -/
+structure Hyp2 (cfg : JointConfig) (c0 : Nat) (h : List Sys) : Prop extends Hyp2w cfg c0 h where
   norir : ∀ s ∈ h, ∀ x ∈ s.net, x.msgType ≠ .msgReadIndexResp
 
 /-- `τ` is a lower bound of the in-memory and of the stored term of node `k` -/
@@ -50,7 +56,7 @@ theorem TermFloor.later {h : List Sys} (hh : History h) {n n' : Nat} {s s' : Sys
   hf.steps ((hist_all hh).2.2 n n' s s' hle hn hn')
 
 /-- **a leader's term is in its storage** -/
-theorem leader_floor {cfg : JointConfig} {c0 : Nat} {h : List Sys} (H : Hyp2 cfg c0 h) {s : Sys}
+theorem leader_floor {cfg : JointConfig} {c0 : Nat} {h : List Sys} (H : Hyp2w cfg c0 h) {s : Sys}
     (hs : s ∈ h) {k τ : Nat} (hl : leads s k τ) : TermFloor s k τ := by
   obtain ⟨st, hk, hst, hterm⟩ := hl
   have hall := hist_all H.hist
